@@ -2,6 +2,8 @@
 C09 — Key lookups return the last live message with exactly that key.
 -/
 import Klev.Proofs.KeyOK
+import Klev.Proofs.ExtRun
+import Klev.Proofs.ExtReads
 namespace Klev.C09
 
 /-- **Refinement.** On every log state satisfying the invariant (and whose indexes carry the
@@ -35,9 +37,133 @@ theorem derive_keys (p : Params) (v : Ver) (recs : List Msg) (hk : p.keys = true
     KeysFor recs (derive p v recs) :=
   Klev.derive_keysFor p v recs hk
 
+/-! ### The side condition `KeysInv` is an invariant of the API
+
+The theorems above take `KeysInv l` as a hypothesis. Below it is discharged: it holds in the
+state `Open` returns on an empty directory, every API step keeps it, and therefore the
+refinement statements hold *unconditionally* in every state a history reaches — which is the
+property's quantifier "for all C01 histories". -/
+
+/-- `ConsumeByKey` is a read too: invariant, content and key-hash invariant are kept. -/
+theorem consumeByKey_keeps (l : Log) (hinv : Inv l) (hk : KeysInv l) (key : List UInt8)
+    (off mc : Int) :
+    Loaded l (l.consumeByKey key off mc).1 ∧ KeysInv (l.consumeByKey key off mc).1 :=
+  ⟨Klev.consumeByKey_loaded l hinv hk key off mc, Klev.consumeByKey_keysInv l hinv hk key off mc⟩
+
+/-- The log `Open` returns on an empty directory satisfies `KeysInv`. -/
+theorem keysInv_open_empty (oo : OpenOpts) : ∀ l0, Log.open [] oo = .ok l0 → KeysInv l0 :=
+  Klev.keysInv_open_empty oo
+
+/-- Every API step (Publish, Delete, reads, GC, Close/reopen with the same index
+configuration) keeps `KeysInv` when the key index is configured. -/
+theorem keysInv_step (l : Log) (hinv : Inv l) (hk : l.opts.params.keys = true) (hki : KeysInv l)
+    (op : Op) (hpar : OpParams l.opts.params op) : KeysInv (stepOp l op) :=
+  Klev.keysInv_step l hinv hk hki op hpar
+
+/-- `KeysInv` (asked only when the key index is configured: `KeysInv'`) holds along every
+history that keeps the index configuration. -/
+theorem keysInv'_run (l : Log) (hinv : Inv l) (hki : KeysInv' l) (ops : List Op)
+    (hsame : SameParams l.opts.params ops) : KeysInv' (runOps l ops) :=
+  Klev.keysInv'_run l hinv hki ops hsame
+
+/-- `getByKey_ok` with the hypothesis asked only when the key index is configured; without
+the key index the call fails with `ErrNoIndex` (the `keys = false` branch of
+`Spec.GetByKeyOK`) on every state. -/
+theorem getByKey_ok' (l : Log) (hinv : Inv l) (hki : KeysInv' l) (key : List UInt8) :
+    Spec.GetByKeyOK l.opts.params.keys (abs l) key (l.getByKey key).2 :=
+  Klev.getByKey_ok' l hinv hki key
+
+/-- `consumeByKey_ok` with the hypothesis asked only when the key index is configured;
+`ErrNoIndex` otherwise. -/
+theorem consumeByKey_ok' (l : Log) (hinv : Inv l) (hki : KeysInv' l) (key : List UInt8)
+    (off mc : Int) :
+    Spec.ConsumeByKeyOK l.opts.params.keys (abs l) key off mc (l.consumeByKey key off mc).2 :=
+  Klev.consumeByKey_ok' l hinv hki key off mc
+
+/-- **Clause "GetByKey / OffsetByKey return the last live message with exactly that key",
+unconditionally.** For every open configuration, every operation sequence from an empty
+directory (publishes, deletes, reads, GC, reopens that keep the index configuration) and
+every key: `GetByKey` on the reached state meets its specification. No `Inv` or `KeysInv`
+hypothesis. -/
+theorem getByKey_ok_run (oo : OpenOpts) (ops : List Op) (hsame : SameParams oo.opts.params ops)
+    (key : List UInt8) : ∀ l0, Log.open [] oo = .ok l0 →
+    Spec.GetByKeyOK (runOps l0 ops).opts.params.keys (abs (runOps l0 ops)) key
+      ((runOps l0 ops).getByKey key).2 :=
+  Klev.getByKey_ok_run oo ops hsame key
+
+/-- **Clause "ConsumeByKey returns exactly the live messages with that key, in offset order,
+and ends at NextOffset", unconditionally**: for every operation sequence from an empty
+directory, every key, every cursor offset and every max count. -/
+theorem consumeByKey_ok_run (oo : OpenOpts) (ops : List Op)
+    (hsame : SameParams oo.opts.params ops) (key : List UInt8) (off mc : Int) :
+    ∀ l0, Log.open [] oo = .ok l0 →
+    Spec.ConsumeByKeyOK (runOps l0 ops).opts.params.keys (abs (runOps l0 ops)) key off mc
+      ((runOps l0 ops).consumeByKey key off mc).2 :=
+  Klev.consumeByKey_ok_run oo ops hsame key off mc
+
+/-- All side conditions of the lookups bundled (`Good`): on such a state all three lookups
+meet their specifications. -/
+theorem good_lookups {l : Log} (hg : Good l) :
+    (∀ key, Spec.GetByKeyOK l.opts.params.keys (abs l) key (l.getByKey key).2) ∧
+    (∀ key off mc, Spec.ConsumeByKeyOK l.opts.params.keys (abs l) key off mc
+      (l.consumeByKey key off mc).2) ∧
+    (∀ t, Spec.GetByTimeOK l.opts.params.times (abs l) t (l.getByTime t).2) :=
+  hg.lookups
+
+/-- **The same with the lookups themselves inside the history** (`OpX`: they change the
+state by loading indexes). After any interleaving of API steps and key/time lookups from an
+empty directory, the key lookups (and the time lookup) meet their specifications. The
+publish-time hypothesis is asked only when the time index is configured; it concerns C10. -/
+theorem lookups_ok_runX (oo : OpenOpts) (xs : List OpX) (hsame : SameParamsX oo.opts.params xs) :
+    ∀ l0, Log.open [] oo = .ok l0 → (oo.opts.params.times = true → TimesOKRunX l0 xs) →
+    (∀ key, Spec.GetByKeyOK (runX l0 xs).opts.params.keys (abs (runX l0 xs)) key
+      ((runX l0 xs).getByKey key).2) ∧
+    (∀ key off mc, Spec.ConsumeByKeyOK (runX l0 xs).opts.params.keys (abs (runX l0 xs)) key off mc
+      ((runX l0 xs).consumeByKey key off mc).2) ∧
+    (∀ t, Spec.GetByTimeOK (runX l0 xs).opts.params.times (abs (runX l0 xs)) t
+      ((runX l0 xs).getByTime t).2) :=
+  Klev.lookups_ok_runX oo xs hsame
+
+/-- The key part of `lookups_ok_runX` on a log opened without the time index: no hypothesis
+on the history at all beyond "reopens keep the index configuration". -/
+theorem key_lookups_ok_runX (oo : OpenOpts) (xs : List OpX) (hsame : SameParamsX oo.opts.params xs)
+    (hnt : oo.opts.params.times = false) :
+    ∀ l0, Log.open [] oo = .ok l0 →
+    (∀ key, Spec.GetByKeyOK (runX l0 xs).opts.params.keys (abs (runX l0 xs)) key
+      ((runX l0 xs).getByKey key).2) ∧
+    (∀ key off mc, Spec.ConsumeByKeyOK (runX l0 xs).opts.params.keys (abs (runX l0 xs)) key off mc
+      ((runX l0 xs).consumeByKey key off mc).2) := fun l0 ho =>
+  have h := Klev.lookups_ok_runX oo xs hsame l0 ho (fun ht => by rw [hnt] at ht; cases ht)
+  ⟨h.1, h.2.1⟩
+
+/-- With the time index configured as well: a history (lookups included) whose published
+times never decrease — a condition on the operation list alone. -/
+theorem lookups_ok_monoX (oo : OpenOpts) (xs : List OpX) (hsame : SameParamsX oo.opts.params xs)
+    (hmono : oo.opts.params.times = true → PubMonoX 0 xs) :
+    ∀ l0, Log.open [] oo = .ok l0 →
+    (∀ key, Spec.GetByKeyOK (runX l0 xs).opts.params.keys (abs (runX l0 xs)) key
+      ((runX l0 xs).getByKey key).2) ∧
+    (∀ key off mc, Spec.ConsumeByKeyOK (runX l0 xs).opts.params.keys (abs (runX l0 xs)) key off mc
+      ((runX l0 xs).consumeByKey key off mc).2) ∧
+    (∀ t, Spec.GetByTimeOK (runX l0 xs).opts.params.times (abs (runX l0 xs)) t
+      ((runX l0 xs).getByTime t).2) :=
+  Klev.lookups_ok_monoX oo xs hsame hmono
+
 end Klev.C09
 
 #print axioms Klev.C09.getByKey_ok
 #print axioms Klev.C09.consumeByKey_ok
 #print axioms Klev.C09.getByKey_keeps
 #print axioms Klev.C09.derive_keys
+#print axioms Klev.C09.consumeByKey_keeps
+#print axioms Klev.C09.keysInv_open_empty
+#print axioms Klev.C09.keysInv_step
+#print axioms Klev.C09.keysInv'_run
+#print axioms Klev.C09.getByKey_ok'
+#print axioms Klev.C09.consumeByKey_ok'
+#print axioms Klev.C09.getByKey_ok_run
+#print axioms Klev.C09.consumeByKey_ok_run
+#print axioms Klev.C09.good_lookups
+#print axioms Klev.C09.lookups_ok_runX
+#print axioms Klev.C09.key_lookups_ok_runX
+#print axioms Klev.C09.lookups_ok_monoX
